@@ -468,7 +468,6 @@ func paramsOfArg(a ssa.Value) map[*ssa.Parameter]bool {
 	return out
 }
 
-
 // findCallIn returns the call named method (interface method or function name) in fn or, failing that, in a helper of
 // the same package fn calls (two levels), together with the function that holds it: rules about "what happens around
 // the exchange with the target" look at that function, wherever a refactoring put the exchange.
